@@ -19,8 +19,11 @@
 
   Side conditions found (each with a counterexample TEST, each confirmed on the Go code):
   * duplicate keys: `$unset` twice ≠ once on `{a:1, a:2}`  → hypothesis `nodupKeys`;
-  * signed numerals: `$set "a.+1"` writes element 1 but `Get "a.+1"` reads Missing → `canonPath`;
   * numeral aliases: `$set {"a.1": 1, "a.01": 2}` is not a conflict, both write element 1.
+  Side condition that is gone: signed numerals.  `put` used to read array indexes with `strconv.Atoi`
+  (`$set "a.+1"` wrote element 1 but `Get "a.+1"` read Missing), which forced a `canonPath` hypothesis on
+  the read-back theorems — a FINDING, fixed in /repo 8d332af: `put` now uses `ParseIndex` like `get`,
+  "a.+1" / "a.-0" on an array are rejected, and `get_put_same` / `changes_hold_partial` hold unconditionally.
 -/
 import Lungo.Proofs.ArithLaws
 import Lungo.Proofs.AccessLaws
@@ -122,21 +125,14 @@ theorem put_doc_returns_doc (fs : List (String × V)) (key : String) (rest : Pat
     (nv prev : V) (h : put (.doc fs) (key :: rest) x pre = .ok (nv, prev)) : ∃ fs', nv = .doc fs' :=
   put_doc_isDoc fs key rest x pre nv prev h
 
-/-- `get_put_same`: after a successful write of a present value at a path all of whose segments
-    are canonical (`canonSeg`: no signed numeral such as "+1", "-0"), the path reads the value. -/
+/-- `get_put_same`: after a successful write of a present value at ANY path, the path reads the
+    value (no side condition on the segments: `put` and `get` both read array indexes with
+    `ParseIndex`; the former `get_put_general`, which described the signed-numeral exception, is
+    subsumed). -/
 theorem get_put_same (v : V) (p : Path) (x : V) (pre : Bool) (nv prev : V) (compact : Bool)
-    (h : put v p x pre = .ok (nv, prev)) (hx : x.isMissing = false) (hp : canonPath p = true) :
-    get nv p false compact = (x, false) :=
-  Lungo.get_put_same v p x pre nv prev compact h hx hp
-
-/-- Without canonicity exactly one other outcome is possible: the path reads Missing both before
-    and after the write (a signed numeral met an array). -/
-theorem get_put_general (v : V) (p : Path) (x : V) (pre : Bool) (nv prev : V) (compact : Bool)
     (h : put v p x pre = .ok (nv, prev)) (hx : x.isMissing = false) :
-    get nv p false compact = (x, false) ∨
-      (canonPath p = false ∧ get nv p false compact = (.missing, false) ∧
-        get v p false compact = (.missing, false)) :=
-  get_put_gen v p x pre nv prev compact h hx
+    get nv p false compact = (x, false) :=
+  Lungo.get_put_same v p x pre nv prev compact h hx
 
 /-- `put_other_path_stable` ("untouched fields keep their value"): a successful write or unset at
     `p` leaves the value read at every path `q` that parts from `p` (`diverge`: at some position,
@@ -167,7 +163,7 @@ theorem put_result_shape (fs : List (String × V)) (key : String) (rest : Path) 
   put_doc_shape fs key rest x pre nv prev h
 
 /-- `put_idempotent`: writing the same present value again returns the same tree. No side
-    condition (both writes read the segments with Atoi). -/
+    condition (both writes read the segments with ParseIndex). -/
 theorem put_idempotent (v : V) (p : Path) (x : V) (pre : Bool) (nv prev : V)
     (h : put v p x pre = .ok (nv, prev)) (hx : x.isMissing = false) :
     put nv p x pre = .ok (nv, x) :=
@@ -193,16 +189,15 @@ theorem unset_idempotent (d : Doc) (p : Path) (hp : p ≠ []) (hn : (V.doc d).no
 -- that make the side conditions necessary.
 section Tests
 def docA : Doc := [("x", .i32 1), ("a", .arr [.i32 0, .doc [("b", .i32 5)]]), ("z", .str "s")]
--- get_put_same on a canonical path through a document, an array index and padding
-#guard canonPath ["a", "1", "c"] && canonPath ["a", "4"] && canonPath ["a", "01"]
+-- get_put_same on a path through a document, an array index and padding
 #guard (okV (put (.doc docA) ["a", "1", "c"] (.i32 7) false)).map (fun nv => (get nv ["a", "1", "c"] false false).1) == some (.i32 7)
 #guard (okV (put (.doc docA) ["a", "4"] (.i32 7) false)).map (fun nv => (get nv ["a", "4"] false false).1) == some (.i32 7)
 #guard (okV (put (.doc docA) ["a", "01"] (.i32 7) false)).map (fun nv => (get nv ["a", "01"] false false).1) == some (.i32 7)
--- COUNTEREXAMPLE without canonPath: "+1" / "-0" index the array for put but not for get
-#guard !canonPath ["a", "+1"] && !canonPath ["a", "-0"]
-#guard (okV (put (.doc docA) ["a", "+1"] (.i32 7) false)) == some (.doc [("x", .i32 1), ("a", .arr [.i32 0, .i32 7]), ("z", .str "s")])
-#guard (okV (put (.doc docA) ["a", "+1"] (.i32 7) false)).map (fun nv => (get nv ["a", "+1"] false false).1) == some .missing
-#guard (okV (put (.doc docA) ["a", "-0"] (.i32 7) false)).map (fun nv => (get nv ["a", "-0"] false false).1) == some .missing
+-- the former COUNTEREXAMPLE (signed numerals "+1" / "-0" indexed the array for put but not for get):
+-- put now rejects them on an array, as get never read them as an index; on a document they are plain keys
+#guard isErr (put (.doc docA) ["a", "+1"] (.i32 7) false) && isErr (put (.doc docA) ["a", "-0"] (.i32 7) false)
+#guard (get (.doc docA) ["a", "+1"] false false).1 == .missing && (get (.doc docA) ["a", "-0"] false false).1 == .missing
+#guard (okV (put (.doc docA) ["z2", "+1"] (.i32 7) false)).map (fun nv => (get nv ["z2", "+1"] false false).1) == some (.i32 7)
 -- put_other_path_stable: diverging paths; padding turns Missing into null; aliases do not diverge
 #guard diverge ["a", "1", "c"] ["a", "0"] && diverge ["a", "4"] ["a", "3"] && !diverge ["a", "1"] ["a", "01"] && !diverge ["a"] ["a", "0"]
 #guard (okV (put (.doc docA) ["a", "1", "c"] (.i32 7) false)).map (fun nv => (get nv ["a", "1", "b"] false false).1) == some (.i32 5)
@@ -214,7 +209,8 @@ def docA : Doc := [("x", .i32 1), ("a", .arr [.i32 0, .doc [("b", .i32 5)]]), ("
 #guard (okV (put (.doc docA) ["x"] (.i32 9) false)) == some (.doc [("x", .i32 9), ("a", .arr [.i32 0, .doc [("b", .i32 5)]]), ("z", .str "s")])
 #guard (okV (put (.doc docA) ["n", "m"] (.i32 9) false)) == some (.doc (docA ++ [("n", .doc [("m", .i32 9)])]))
 -- put_idempotent
-#guard (okV (put (.doc docA) ["a", "+3", "k"] (.i32 7) false)).map (fun nv => okV (put nv ["a", "+3", "k"] (.i32 7) false)) == (okV (put (.doc docA) ["a", "+3", "k"] (.i32 7) false)).map some
+#guard (okV (put (.doc docA) ["a", "03", "k"] (.i32 7) false)).isSome
+#guard (okV (put (.doc docA) ["a", "03", "k"] (.i32 7) false)).map (fun nv => okV (put nv ["a", "03", "k"] (.i32 7) false)) == (okV (put (.doc docA) ["a", "03", "k"] (.i32 7) false)).map some
 -- unset: field removed, array element nulled; idempotent without duplicate keys
 #guard (V.doc docA).nodupKeys
 #guard (Unset docA ["a", "1", "b"]).1 == [("x", .i32 1), ("a", .arr [.i32 0, .doc []]), ("z", .str "s")]
@@ -228,6 +224,7 @@ def docDup : Doc := [("a", .i32 1), ("a", .i32 2)]
 -- put errors are plain errors
 #guard isErr (put (.doc docA) ["x", "y"] (.i32 1) false) && isErr (put (.doc docA) ["a", "-1"] (.i32 1) false)
 #guard isErr (put (.doc docA) ["a", "9223372036854775807"] (.i32 1) false)
+#guard isErr (put (.doc docA) ["a", "1500003"] (.i32 1) false)      -- more than MaxArrayPadding nulls needed
 end Tests
 
 /-! ## §3 Idempotence of `$set $unset $min $max $addToSet $pull $pullAll`
@@ -340,23 +337,23 @@ theorem record_conflict_free (c : ACtx) (d u : Doc) (afs : List Doc) (d' : Doc)
 
 /-- `changes_hold_partial`: for the operators that perform a single write
     (`$set $setOnInsert $inc $mul $min $max $currentDate $bit $pull $pullAll $addToSet`) applied at
-    a canonical path: either
+    any path: either
     nothing was recorded, or exactly one entry (path, x) with x present was appended and the result
     document holds x at that path.
     Full statement (NOT provable, false in the code): "after a successful Apply every recorded
     (path, value) satisfies `Get result path = value`".  Witnesses (confirmed on the Go code):
     `{$set: {"a.1": 1, "a.01": 2}}` on `{a:[0,0]}` records a.1 = 1 but the result has a.1 = 2
-    (numeral aliases are not detected as a conflict); `{$set: {"a.+1": 1}}` records "a.+1" = 1
-    which reads Missing.  `$pop` is `pop_change_holds`, `$unset` is `unset_change_holds`; `$push`
+    (numeral aliases are not detected as a conflict).  (The former second witness, `{$set: {"a.+1": 1}}`
+    recording "a.+1" = 1 which read Missing, is gone: the update is rejected since /repo 8d332af, and the
+    `canonPath` hypothesis this theorem carried is dropped.)  `$pop` is `pop_change_holds`, `$unset` is `unset_change_holds`; `$push`
     (per-element records) and `$rename` (two records) are not covered. -/
 theorem changes_hold_partial (c : ACtx) (s s1 : AState) (op path : String) (v : V)
-    (hop : op ∈ scalarOps) (hp : canonPath (splitPath path) = true)
-    (h : applyOp c s op path v = .ok s1) :
+    (hop : op ∈ scalarOps) (h : applyOp c s op path v = .ok s1) :
     s1 = s ∨ ∃ x, s1.changed = s.changed ++ [(path, x)] ∧ x.isMissing = false ∧ Get s1.doc path = x := by
   rcases applyOp_scalar_shape c s s1 op path v hop h with e | ⟨x, hx⟩
   · exact .inl e
   · obtain ⟨h1, h2, h3⟩ := putRec_holds hx
-    exact .inr ⟨x, h1, h2, h3 hp⟩
+    exact .inr ⟨x, h1, h2, h3⟩
 
 /-- `$pop`: either nothing is recorded, or one entry whose value is what the path reads in the result. -/
 theorem pop_change_holds (c : ACtx) (s s1 : AState) (path : String) (v : V)
@@ -384,9 +381,11 @@ section Tests
   == some [("a.1", .i32 1), ("a.01", .i32 2)]
 #guard (okDoc (Apply ctx0 [("a", .arr [.i32 0, .i32 0])] [("$set", .doc [("a.1", .i32 1), ("a.01", .i32 2)])] [])).map (fun d => Get d "a.1")
   == some (.i32 2)
--- WITNESS: signed numeral — recorded "a.+1" = 1 reads Missing
-#guard (okDoc (Apply ctx0 [("a", .arr [.i32 0, .i32 0])] [("$set", .doc [("a.+1", .i32 1)])] [])).map (fun d => (Get d "a.+1", Get d "a.1"))
-  == some (.missing, .i32 1)
+-- former WITNESS (signed numeral: recorded "a.+1" = 1 read Missing): the update is now rejected
+#guard isErr (Apply ctx0 [("a", .arr [.i32 0, .i32 0])] [("$set", .doc [("a.+1", .i32 1)])] [])
+-- changes_hold_partial on a path with a leading-zero index and on a padded index
+#guard (okDoc (Apply ctx0 [("a", .arr [.i32 0, .i32 0])] [("$set", .doc [("a.01", .i32 1)])] [])).map (fun d => Get d "a.01") == some (.i32 1)
+#guard (okDoc (Apply ctx0 [("a", .arr [.i32 0, .i32 0])] [("$set", .doc [("a.4", .i32 1)])] [])).map (fun d => Get d "a.4") == some (.i32 1)
 end Tests
 
 end Lungo.C11
